@@ -12,7 +12,7 @@ Clauses of the property and where they are proved:
                                    C14_agrees_partial  (full statement: C14_agrees_full, refuted by
                                    C14_agrees_full_fails for the three deviations kept as known findings
                                    F36 `~bool`, F37 `bool & bool`, F38 `c ? int : unsigned`)
-  (b) literal text gets the C++ type            C14_literal_type      (no guard)
+  (b) literal text gets the C++ type            C14_literal_type, C14_literal_in_context   (no guard)
   (c) operands C++ does not evaluate are not evaluated
                                    C14_lazy_and, C14_lazy_or, C14_lazy_cond   (no guard, any operand)
   corollary: no trap / exception / host UB on a defined expression     C14_defined_no_trap
@@ -78,6 +78,19 @@ theorem C14_literal_type (l : Lit) (v : Val) (hl : integral (.lit l) = true) (h 
     loadTok l.text = Prim.ofVal v :=
   (lit_agree hl h).1
 
+/-- (b) in context: the tokenizer hands primitive::load a pointer into the source text, not an isolated
+    token.  Whatever follows the literal (`rest`: nothing, a blank, a closing parenthesis or an
+    operator character — `Term`), load returns the C++ type and value and stops exactly at the end of
+    the literal. -/
+theorem C14_literal_in_context (l : Lit) (v : Val) (hl : integral (.lit l) = true) (h : litVal l = .val v)
+    (rest : List Char) (hr : Term rest) (fuel : Nat) :
+    load (fuel + 1) (l.text ++ rest) true = (Prim.ofVal v, rest) := by
+  cases l with
+  | bool b => simp [litVal] at h; subst h; exact boollit_load b rest fuel
+  | int il => exact (intlit_load il v h rest hr fuel).1
+  | float fl => simp [integral] at hl
+
+example : Term " + 1".toList := Or.inr ⟨' ', "+ 1".toList, rfl, by decide⟩
 example : litVal (.int ⟨[], "2147483648".toList, []⟩) = .val ⟨.long, 2147483648⟩ := by decide
 example : litVal (.int ⟨['0', 'x'], "FFFFFFFF".toList, []⟩) = .val ⟨.uint, 4294967295⟩ := by decide
 
